@@ -148,6 +148,22 @@ func (s *Sim) RandomQuery() *Rec {
 		}
 	}
 	var h int64
+	if path == "proposal" && len(data) == 32 && len(s.Props) > 0 && r.Chance(60) {
+		// heights across the proposal's life cycle: before it existed, voting, closed/frozen, applied
+		for _, p := range s.Props {
+			if string(p.Hash) == string(data) {
+				cands := []int64{p.Start - 2, p.Start, p.End, p.End + 1, p.End + 2, p.Applying, p.Applying + 1}
+				h = cands[r.Intn(len(cands))]
+				if h < 1 {
+					h = 1
+				}
+				if h > s.Height {
+					h = s.Height
+				}
+				return s.Query(path, data, h)
+			}
+		}
+	}
 	switch r.Pick(3, 5, 1, 1) {
 	case 0:
 		h = 0
